@@ -1590,8 +1590,62 @@ def _abort(ex, *a):
     raise PathEnd()
 
 
+def c_string(ex, p, limit=4096):
+    """concrete NUL-terminated string at p (Unsupported if a byte is symbolic)"""
+    out = []
+    p = simp(p)
+    for i in range(limit):
+        b = simp(ex.mem.load(ex._add64(p, i), 1))
+        if not is_c(b):
+            raise Unsupported('symbolic byte in a string that must be concrete')
+        if b == 0:
+            return bytes(out)
+        out.append(b)
+    raise UnwindBound('string longer than %d' % limit)
+
+
+def _sprintf(ex, dst, fmt, *args):
+    """sprintf for concrete formats and concrete integer / string arguments (%d %u %ld %lu %lld %llu %zd %zu %s %c %%)"""
+    import re
+    f = c_string(ex, fmt).decode('latin1')
+    args = list(args)
+    out = []
+    pos = 0
+    for m in re.finditer(r'%(%|[0-9.]*(?:hh|h|ll|l|z|j|t)?[duxXcs])', f):
+        out.append(f[pos:m.start()].encode('latin1'))
+        pos = m.end()
+        spec = m.group(1)
+        if spec == '%':
+            out.append(b'%')
+            continue
+        a = simp(args.pop(0))
+        conv = spec[-1]
+        if conv == 's':
+            out.append(c_string(ex, a))
+            continue
+        if not is_c(a):
+            raise Unsupported('sprintf of a symbolic integer')
+        width = 64 if ('ll' in spec or 'l' in spec or 'z' in spec or 'j' in spec or 't' in spec) else 32
+        a &= mask(width)
+        if conv == 'd':
+            a = signed(a, width)
+            out.append(str(a).encode())
+        elif conv == 'u':
+            out.append(str(a).encode())
+        elif conv in 'xX':
+            out.append((('%x' if conv == 'x' else '%X') % a).encode())
+        else:
+            out.append(bytes([a & 255]))
+    out.append(f[pos:].encode('latin1'))
+    data = b''.join(out)
+    for i, b in enumerate(data):
+        ex.mem.store(ex._add64(dst, i), b, 1)
+    ex.mem.store(ex._add64(dst, len(data)), 0, 1)
+    return len(data)
+
+
 LIBC = {
     'strlen': _strlen, 'strcmp': _strcmp, 'strncmp': _strncmp, 'memcmp': _memcmp,
     'memcpy': _memcpy, 'memmove': _memmove, 'memset': _memset, 'memchr': _memchr,
-    'abort': _abort,
+    'abort': _abort, 'sprintf': _sprintf,
 }
